@@ -573,6 +573,34 @@ def run(ctx):
                                  "_extract_rc(%r) = `%s`, the marker line denotes `%s`" % (l, ans[0], want),
                                  {"op": "xrc", "line_hex": hexs(l), "line": l.decode("latin1"), "impl": ans[0],
                                   "expected": want})
+        # ---- (e) the request for the status: what dsh() asks the transport to run --------------------------
+        ucmds = [b"cmd", b"ls -l /tmp", b"true", b"a;b", b"echo $?", b"x" * 3000, b"sh -c 'exit 3'", b"q" + magic + b"1"] + \
+                [gen_text(rng, rng.randrange(1, 40), b"abc xyz;$?'\"|&01") for _ in range(10 if ctx.quick() else 300)]
+        cops = ["cmd %d %d %s" % (S, k, hexs(u)) for u in ucmds for S, k in ((0, 0), (1, 0), (0, 1), (1, 1))]
+        impl = run_batch([exe], [[o] for o in cops], env=env, timeout=300)
+        mod = ctx.model("exit", "".join(o + "\n" for o in cops), args=["model", bits])
+        want_tail = b";echo " + magic + b"$?"
+        for o, (ans, crash), m in zip(cops, impl, mod):
+            cov["evaluations"] += 1
+            dist["sent_command"] = dist.get("sent_command", 0) + 1
+            w = o.split(" ")
+            S, k, u = int(w[1]), int(w[2]), (bytes.fromhex(w[3]) if w[3] != "-" else b"")
+            if crash is not None or not ans:
+                ctx.offender("crash", "dsh() harness aborts on %s: %s" % (o[:80], (crash or "")[-300:]), {"op": o})
+                continue
+            if ans[0] != m:
+                ctx.disagreement("exit model vs dsh() (command handed to the transport)", "impl `%s` model `%s`" % (ans[0][:200], m[:200]),
+                                 {"op": o})
+            got = bytes.fromhex(ans[0]) if ans[0] != "-" else b""
+            if (S or k) and not (got.startswith(u) and got.endswith(want_tail)):
+                ctx.offender("%s:marker-not-requested" % (("S" if S else "") + ("k" if k else "")),
+                             "with -%s dsh() asks the transport to run %r for the command %r: the remote shell is not asked "
+                             "to report the command's status (`%s`), so an in-band transport can never report a failure"
+                             % (("S" if S else "") + ("k" if k else ""), got[-80:], u[:60], want_tail.decode()),
+                             {"op": o, "impl": ans[0][-200:]})
+            if not (S or k) and got != u:
+                ctx.offender("plain:command-changed", "without -S / -k dsh() asks the transport to run %r for the command %r"
+                             % (got[-80:], u[:60]), {"op": o, "impl": ans[0][-200:]})
         # ---- (c) exec_destroy on real children --------------------------------------------------
         hows = ["e%d" % c for c in sorted(set(CODES))] + ["s%d" % s for s in SIGS] + ["null"]
         if not ctx.quick():
@@ -850,6 +878,23 @@ def replay(ctx, cov, exe, repo, magic, bits, env):
             if case.get("expected") is not None and ans[0].split(" ")[0] != str(case["expected"]):
                 ctx.offender(sig if ans[0] == m else "xrc:unexplained", "_extract_rc(%r) = `%s`, the marker line denotes `%s`" %
                              (l, ans[0], case["expected"]), case)
+    elif str(case.get("op", "")).startswith("cmd "):
+        o = case["op"]
+        (ans, crash), = run_batch([exe], [[o]], env=env, timeout=60)
+        m = ctx.model("exit", o + "\n", args=["model", bits])[0]
+        w = o.split(" ")
+        S, k, u = int(w[1]), int(w[2]), (bytes.fromhex(w[3]) if w[3] != "-" else b"")
+        ctx.log("replay: %s impl `%s` model `%s`" % (o[:80], ans, m))
+        if crash is not None or not ans:
+            ctx.offender("crash", "dsh() harness aborts on %s" % o[:80], case)
+        else:
+            got = bytes.fromhex(ans[0]) if ans[0] != "-" else b""
+            if ans[0] != m:
+                ctx.disagreement("exit model vs dsh() (command handed to the transport)", "impl `%s` model `%s`" % (ans[0][:200], m[:200]), case)
+            if (S or k) and not (got.startswith(u) and got.endswith(b";echo " + magic + b"$?")):
+                ctx.offender(sig or "marker-not-requested", "the remote shell is not asked to report the command's status", case)
+            if not (S or k) and got != u:
+                ctx.offender("plain:command-changed", "the command was changed", case)
     elif str(case.get("op", "")).startswith("xd "):
         h = case["op"][3:]
         (ans, crash), = run_batch([exe], [["xd " + h]], env=env, timeout=60)
